@@ -194,6 +194,20 @@ pub fn run_case(prop: &str, sub: u64, histories: usize, scratch: &Path, acc: &mu
         let mark: &[u8] = [&b"\xEF\xBB\xBF"[..], &b"\xFF\xFE"[..], &b"\xFE\xFF"[..]][rng.below(3)];
         case.data = [mark, &case.data[..]].concat();
         acc.faults.inc("mark-bytes-with-sniffing-off");
+    } else if prop == "C02" && rng.chance(1, 16) && case.data.is_ascii() && case.cfg.term == Term::Lf {
+        // the same text as UTF-16 (either byte order) or UTF-8 behind a byte-order mark, sniffing
+        // on: every route has to notice the mark
+        let (mark, wide, be): (&[u8], bool, bool) = [(&b"\xFF\xFE"[..], true, false), (&b"\xFE\xFF"[..], true, true), (&b"\xEF\xBB\xBF"[..], false, false)][rng.below(3)];
+        let mut enc = mark.to_vec();
+        for &b in &case.data {
+            if wide {
+                enc.extend_from_slice(&if be { (b as u16).to_be_bytes() } else { (b as u16).to_le_bytes() });
+            } else {
+                enc.push(b);
+            }
+        }
+        case.data = enc;
+        acc.faults.inc("input-behind-a-byte-order-mark");
     } else if prop == "C02" && rng.chance(1, 16) && !case.data.is_empty() {
         // an explicit UTF-8 label and a byte that is not UTF-8: every route replaces it alike
         case.cfg.encoding = Some("utf-8".into());
